@@ -161,4 +161,24 @@ BookkeepingS(s) ==
   /\ {s.known[i].id : i \in 1..Len(s.known)} \cup {s.cur} = {s.files[i].id : i \in 1..Len(s.files)}
   /\ \A i \in 1..Len(s.known) : s.known[i].len = s.files[Idx(s, s.known[i].id)].len
 KnownSortedS(s) == \A i \in 1..(Len(s.known) - 1) : s.known[i].kmt <= s.known[i + 1].kmt
+
+\* ---- the builder (LogFileWriter::new_builder / with_*): every setting lands in its own field, what is not set keeps the
+\* documented default (10 MiB per file, a new file every 24 hours, no age limit), values below the documented minima
+\* (64 KiB, 1 second, 1 minute) are refused.  -1 = not called / not set.
+ConfigRefused(a) == \/ (a.writeBytes >= 0 /\ a.writeBytes < 65536)
+                    \/ (a.writeAgeS >= 0 /\ a.writeAgeS < 1)
+                    \/ (a.keepAgeS >= 0 /\ a.keepAgeS < 60)
+ConfigOf(a) == [keepBytes |-> a.keepBytes,
+                writeBytes |-> IF a.writeBytes >= 0 THEN a.writeBytes ELSE 10 * 1024 * 1024,
+                writeAgeS |-> IF a.writeAgeS >= 0 THEN a.writeAgeS ELSE 24 * 3600,
+                keepAgeS |-> a.keepAgeS]
+\* What the retention property needs of the builder: a setting that was made is the one the writer runs with.  The defaults
+\* and the minima are documented above (DefaultsOk, for reading) but a change to them is not a loss of the property, so a
+\* refused configuration and the value of an unset field are accepted as they come.
+DefaultsOk(a, g) == LET c == ConfigOf(a) IN g.writeBytes = c.writeBytes /\ g.writeAgeS = c.writeAgeS /\ g.keepAgeS = c.keepAgeS
+ConfigOk(a, g) == \/ g.panic
+                  \/ /\ g.prefixSame /\ g.keepBytes = a.keepBytes
+                     /\ (a.writeBytes >= 0 => g.writeBytes = a.writeBytes)
+                     /\ (a.writeAgeS >= 0 => g.writeAgeS = a.writeAgeS /\ g.writeAgeNs = 0)
+                     /\ (a.keepAgeS >= 0 => g.keepAgeS = a.keepAgeS)
 ====
